@@ -85,6 +85,8 @@ pub struct Ctx {
     pub subchecks: BTreeMap<String, u64>,
     pub regress_replayed: u64,
     pub fuzz_executions: u64,
+    /// quick-tier work multiplier (see `scale`); a module may lower it for expensive cases
+    pub qmult: u64,
     /// distinct non-trivial sweep points (conservative lower bound), see `Sketch`
     pub sketch: Option<std::sync::Arc<Sketch>>,
 }
@@ -221,6 +223,7 @@ impl Ctx {
             subchecks: BTreeMap::new(),
             regress_replayed: 0,
             fuzz_executions: 0,
+            qmult: quick_mult(),
             sketch: None,
         }
     }
@@ -229,6 +232,7 @@ impl Ctx {
     pub fn fork(&self) -> Ctx {
         let mut c = Ctx::new(&self.property, self.tier, self.seed, self.root.clone());
         c.known = self.known.clone();
+        c.qmult = self.qmult;
         c
     }
 
@@ -299,7 +303,7 @@ impl Ctx {
                 if quick >= thorough {
                     quick
                 } else {
-                    (quick.saturating_mul(quick_mult())).min(thorough)
+                    (quick.saturating_mul(self.qmult)).min(thorough)
                 }
             }
             Tier::Thorough => thorough,
